@@ -53,6 +53,17 @@ SHARDS = 16          # 2^28 float32 bit patterns each
 
 def enumerate_cases(tier, seed):
   cases = fp.configs(6 if tier == "quick" else 8)
+  # histories on ONE quantizer object: the documented modifiable attribute `symmetric` (and the layer hook
+  # _set_trainable_parameter, which switches alpha=None to 'auto_po2' and symmetric on) changed after the object has
+  # already been called; the object must then behave exactly like a fresh quantizer built with the final settings
+  for cfg in fp.configs(4 if tier == "quick" else 6, classes=("quantized_bits", "quantized_linear")):
+    if cfg["alpha"] not in (None, 1.0) or cfg["bits"] - int(bool(cfg["keep_negative"])) == 0:
+      continue
+    for hist in (["call", "symmetric=flip"], ["symmetric=flip"], ["call", "symmetric=flip", "call", "symmetric=flip"]):
+      cases.append(dict(hist=hist, **cfg))
+    if cfg["alpha"] is None:
+      cases.append(dict(hist=["call", "layer-hook"], **cfg))
+      cases.append(dict(hist=["layer-hook"], **cfg))
   if tier == "thorough":
     # complete float32 sweep: every bit pattern of every finite input below the 2^24-step horizon
     for cfg in SWEEP_CONFIGS:
@@ -148,9 +159,62 @@ def expected_interval(cfg, f, x):
   return np.clip(cmin, f["lo"], f["hi"]), np.clip(cmax, f["lo"], f["hi"]), a
 
 
+def run_history(cfg):
+  """construct -> (call | mutate)* -> call: differential against a fresh object with the final settings."""
+  tf = common.tf_init()
+  common.reset_keras()
+  hist = cfg["hist"]
+  base = {k: v for k, v in cfg.items() if k != "hist"}
+  x = np.unique(np.concatenate([fp.alphabet(dict(base, symmetric=0)), fp.alphabet(dict(base, symmetric=1))]))
+  xs = [x, x.reshape(-1, 1) * np.array([[1.0, 0.5, 0.25]], dtype=np.float32)]
+  q = fp.make(base)
+  final = dict(base)
+  viol = []
+  for op in hist:
+    if op == "call":
+      for v in xs:
+        q(tf.constant(v))
+    elif op == "symmetric=flip":
+      final["symmetric"] = 1 - int(final["symmetric"])
+      q.symmetric = final["symmetric"]
+    else:
+      q._set_trainable_parameter()   # pylint: disable=protected-access
+      if final["alpha"] is None:
+        final["alpha"] = "auto_po2"
+        final["symmetric"] = 1
+  fresh = fp.make(final)
+  evals = 0
+  digests = []
+  tag = "+".join(hist)
+  for v in xs:
+    y, w = np.asarray(q(tf.constant(v)), dtype=np.float32), np.asarray(fresh(tf.constant(v)), dtype=np.float32)
+    evals += int(y.size)
+    digests.append(common.digest(y))
+    if not np.array_equal(y, w):
+      i = int(np.flatnonzero((y != w).reshape(-1))[0])
+      viol.append({"key": "%s:history:%s" % (cfg["cls"], "layer-hook" if "layer-hook" in hist else "symmetric"),
+                   "what": "%s after %r emits %r at x=%r; a fresh quantizer with the final settings %r emits %r" % (
+                       cfg["cls"], hist, float(y.reshape(-1)[i]), float(v.reshape(-1)[i]),
+                       {k: final[k] for k in ("bits", "integer", "keep_negative", "symmetric", "alpha")}, float(w.reshape(-1)[i])),
+                   "detail": {"cfg": cfg}})
+      break
+  for name in ("min", "max"):
+    a, b = np.asarray(fp.to_f(getattr(q, name)())), np.asarray(fp.to_f(getattr(fresh, name)()))
+    evals += 1
+    if not np.array_equal(a, b) and not viol:
+      viol.append({"key": "%s:history:%s()" % (cfg["cls"], name), "what": "%s after %r reports %s() = %r, a fresh quantizer with the "
+                   "final settings reports %r" % (cfg["cls"], hist, name, a.tolist(), b.tolist()), "detail": {"cfg": cfg}})
+  common.reset_keras()
+  return {"evals": evals, "transitions": len(hist) + 1, "nontrivial": int("call" in hist),
+          "state": "hist:%r" % sorted((k, repr(v)) for k, v in cfg.items()), "digest": common.digest(*digests), "violations": viol,
+          "traces": 0, "sample": {"cfg": cfg, "history": hist, "final": {k: repr(v) for k, v in final.items()}}}
+
+
 def run_case(cfg):
   if "sweep" in cfg:
     return run_sweep(cfg)
+  if "hist" in cfg:
+    return run_history(cfg)
   tf = common.tf_init()
   common.reset_keras()
   f = fp.fmt(cfg)
